@@ -25,7 +25,7 @@ from ..divisions import dd, mutate, parts_collection, patched_attr
 from ..frameobs import CallTimeout, partitions_of
 from ..frames import is_shim_error, split_rows
 from ..par import pmap
-from ..rowids import ABSENT, NA, SCALE, cell, split, truthful, unlabel
+from ..rowids import ABSENT, NA, NO_PRE, SCALE, apply_pre, cell, pre_relation, split, truthful, unlabel
 from .C39 import AnyLayouts, _freeze, _tick, clause_names, guarded, pick_layout
 
 META = {
@@ -41,7 +41,10 @@ META = {
                   "set_index(k, drop, npartitions | every covering division vector | sorted=True), drop_duplicates(subset, keep), unique, "
                   "nunique, and ALL row partitionings with <= 4 parts incl. empty ones. Each case is replayed on dask under a seeded "
                   "configuration: partitioning, npartitions_out 1..4, shuffle_method in {None, tasks, disk}, max_branch=2 (multi-stage), "
-                  "ignore_index, split_out / split_every, key dtype in {int64, float64, str, categorical}. Judged: the row multiset with "
+                  "ignore_index, split_out / split_every, key dtype in {int64, float64, str, categorical}; a family of order-free operations "
+                  "(drop_duplicates, unique / nunique, shuffle) and sort_values runs on PRE-PARTITIONED sources (shuffle(on=K') / earlier hash "
+                  "join on K' / groupby(K').first(split_out) / set_index, then a blockwise step; K' equal to, a proper subset or superset of, "
+                  "overlapping or disjoint from the operation's columns), with the expectation of the fresh source. Judged: the row multiset with "
                   "all cells, co-location of equal keys, the number of output partitions, the key order of the concatenated partitions "
                   "(ties in any order), the new index, truthful / user-given divisions, the surviving rows of drop_duplicates, the values "
                   "of unique and nunique, declared npartitions/divisions vs computed partitions, compute() vs the partitions.",
@@ -159,6 +162,11 @@ def run_case(case, cfg):
     def go(note):
         note(meth_of(cfg) + (":staged" if opts_of(cfg) and len(cfg["layout"]) > cfg["mb"] else ""))
         df = source(case["rows"], kind, cfg["layout"], ("S", case, cfg))
+        pre = pre_of(case)
+        if pre["how"] != "none":
+            # the source first goes through a stage that leaves partitioning knowledge behind (same rows)
+            df = apply_pre(df, frame_of(case["rows"], kind), pre, {"k": "k", "k2": "k2", "rid": "rid"}, cfg.get("pren"), cfg.get("premethod"),
+                           "w", blockwise=cfg.get("blockwise", True))
         if fam == "shuffle":
             kw = {"on_index": True} if case["on"] == "idx" else {"on": "k" if case["on"] == "k" else ["k", "k2"]}
             y = df.shuffle(npartitions=cfg["nout"], ignore_index=cfg["ign"], shuffle_method=cfg["method"], **kw, **opts_of(cfg))
@@ -217,13 +225,38 @@ def pandas_obs(case, kind):
 
 
 # ----------------------------------------------------------------------------- records and the judge (mirrors Shuffle!*Bad)
+def pre_of(case):
+    return case.get("pre") or NO_PRE
+
+
+def op_columns(case):
+    """the columns K the judged operation hashes / compares (for the relation of a pre-stage's columns to them)"""
+    fam = case["fam"]
+    if fam == "shuffle":
+        return {"k": ["k"], "kk": ["k", "k2"], "idx": []}[case["on"]]
+    if fam == "sort":
+        return ["k"] if case["by"] == "k" else ["k", "k2"]
+    if fam == "setindex":
+        return ["k"]
+    return {"k": ["k"], "kk": ["k", "k2"], "all": ["k", "k2", "rid"]}[case["subset"]]
+
+
+def pre_tag(case):
+    pre = pre_of(case)
+    return "none" if pre["how"] == "none" else "%s:%s" % (pre["how"], pre_relation(pre, op_columns(case)))
+
+
 def make_record(rid, case, cfg, obs):
     fam = case["fam"]
-    rec = {"id": rid, "rows": case["rows"], "obs": obs}
+    pre = pre_of(case)
+    reindexed = pre["how"] in ("merge", "groupby", "setindex")          # the pre-stage replaced the index: it is not judged
+    rec = {"id": rid, "rows": case["rows"], "obs": obs, "pre": pre}
     if fam == "shuffle":
-        rec.update(op="shuffle", on=case["on"], nout=cfg["nout"] or len(cfg["layout"]), ign=bool(cfg["ign"]))
+        # shuffle(npartitions=None) keeps the partition count of its input - which after a pre-stage is whatever that stage built
+        nin = len(obs.get("parts") or [0]) if pre["how"] != "none" else len(cfg["layout"])
+        rec.update(op="shuffle", on=case["on"], nout=cfg["nout"] or nin, ign=bool(cfg["ign"] or reindexed))
     elif fam == "sort":
-        rec.update(op="sort", by=case["by"], asc=[bool(a) for a in case["asc"]], naf=bool(case["naf"]), ign=bool(cfg["ign"]))
+        rec.update(op="sort", by=case["by"], asc=[bool(a) for a in case["asc"]], naf=bool(case["naf"]), ign=bool(cfg["ign"] or reindexed))
     elif fam == "setindex":
         rec.update(op="setindex", drop=bool(case["drop"]), udivs=list(case["udivs"]), sortit=True)
     elif case["op"] == "drop_duplicates":
@@ -285,7 +318,14 @@ def judge(rec, exp):
             bad.append("UserDivs")
     elif op == "dedup":
         keep = set(exp["rids"])
-        if _bag(flat, noidx) != _bag([r for r in src if r["rid"] in keep], noidx):
+        if rec["pre"]["how"] != "none":           # the pre-stage destroyed the source order: one row of every key class, whichever
+            dk = lambda r: {"k": (r["k"],), "kk": (r["k"], r["k2"]), "all": (r["rid"],)}[rec["subset"]]      # noqa: E731
+            cells = {(r["rid"], r["k"], r["k2"]) for r in src}
+            ok = all((r["rid"], r["k"], r["k2"]) in cells for r in flat) and len({dk(r) for r in flat}) == len(flat) and \
+                {dk(r) for r in flat} == {dk(r) for r in src}
+            if not ok:
+                bad.append("Rows")
+        elif _bag(flat, noidx) != _bag([r for r in src if r["rid"] in keep], noidx):
             bad.append("Rows")
     else:
         if sorted(obs["values"]) != sorted(exp["values"]):
@@ -355,6 +395,17 @@ def make_config(rng, layouts, case, kinds=KINDS):
         cfg["method"] = rng.choice([None, "tasks"])
         cfg["split_out"] = rng.choice([True, True, 1, 2, 3])
         cfg["split_every"] = rng.choice([None, None, 2])
+    if pre_of(case)["how"] != "none":
+        # pre-partitioned source: several partitions before and after the stage; the operation mostly with split_out > 1 and the
+        # partition count the stage left (where a skipped shuffle goes unnoticed); a blockwise step after the stage keeps the
+        # optimizer from simply dropping a shuffle that sits directly below a reduction
+        many = [x for x in layouts[n] if len(x) >= 2]
+        cfg.update(kind=rng.choice([k for k in kinds if k != "cat"]), layout=list(rng.choice(many)) if many else lay,
+                   pren=rng.choice([None, 2, 3, 3]), premethod=rng.choice([None, "tasks", "disk"]), blockwise=rng.random() < 0.8, ign=False)
+        if fam == "dedup":
+            cfg["split_out"] = rng.choice([True, True, True, 2, 3, 1])
+        if fam in ("shuffle", "sort"):
+            cfg["nout"] = rng.choice([None, None, 2, 3])
     return cfg
 
 
@@ -398,6 +449,13 @@ def classify(case, cfg, strategy, clauses, obs):
     kind = {"int": "num", "float": "num"}.get(cfg["kind"], cfg["kind"])
     fam = case["fam"]
     has_na = any(r["k"] == NA for r in case["rows"])
+    if pre_of(case)["how"] != "none":
+        if fam == "sort" and cfg["nout"] is not None and group == "metadata":
+            return "sort_values:npartitions:count"
+        if fam == "dedup" and group == "metadata" and cfg["split_out"] is not True and cfg["split_out"] > 1:
+            return "drop_duplicates:pre-partitioned:split_out:count"
+        # pre-partitioned source: how the stage's columns relate to the columns of the operation is the input class
+        return "%s:pre[%s]:%s:%s" % (famkey(case), pre_tag(case), strategy, group)
     if fam == "shuffle":
         return "shuffle:on=%s:%s:%s:%s" % (case["on"], strategy, kind, group)
     if fam == "sort":
@@ -447,8 +505,12 @@ def random_items(rng, n):
             case = {"fam": fam, "rows": rows, "op": "drop_duplicates", "subset": rng.choice(["k", "kk", "all"]), "keep": rng.choice(["first", "last"])}
         else:
             case = {"fam": fam, "rows": rows, "op": "unique", "subset": "k", "keep": "first"}
+        if fam in ("shuffle", "dedup") and m >= 2 and case.get("on") != "idx" and rng.random() < 0.4:
+            # pre-partitioned source (stages that need no precondition on the rows)
+            case["pre"] = {"how": rng.choice(["shuffle", "shuffle", "merge"]), "on": rng.choice([["k"], ["k2"], ["k", "k2"], ["k", "rid"], ["k", "k2", "rid"], ["rid"]])}
         cfg = make_config(rng, lays, case)
-        cfg["nout"] = rng.choice([None, 1, 2, 3, 5, 6])
+        if "pre" not in case:
+            cfg["nout"] = rng.choice([None, 1, 2, 3, 5, 6])
         out.append(("r%d" % i, case, cfg, None))
     return out
 
@@ -456,11 +518,12 @@ def random_items(rng, n):
 # ----------------------------------------------------------------------------- TLC
 def bounds(ctx):
     q = ctx.quick
-    return {"Keys": {0, 1, 2}, "MaxN": 6 if q else 8, "Full": 2 if q else 3, "Mod": 16 if q else 24, "Salt": ctx.rng.randrange(1000), "MaxParts": 4, "MaxBranchIn": 6 if q else 9}
+    return {"Keys": {0, 1, 2}, "MaxN": 6 if q else 8, "Full": 2 if q else 3, "Mod": 16 if q else 24, "Salt": ctx.rng.randrange(1000), "MaxParts": 4, "MaxBranchIn": 6 if q else 9,
+            "PreMod": 37 if q else 13}
 
 
-INVARIANTS = ["ShuffleContractOK", "ClassesPartition", "SortSane", "SetIndexSane", "DedupSane", "UniqueSane", "StagedOK"]
-FAMS = ["shuffle", "sort", "setindex", "dedup", "layouts"]
+INVARIANTS = ["ShuffleContractOK", "ClassesPartition", "SortSane", "SetIndexSane", "DedupSane", "UniqueSane", "PreSane", "StagedOK"]
+FAMS = ["shuffle", "sort", "setindex", "dedup", "pre", "layouts"]
 
 
 def enumerate_cases(ctx, consts, fams, label):
@@ -484,6 +547,10 @@ def famkey(c):
     return c["fam"] + (":" + c["how"] if c["fam"] == "setindex" else ":" + c["op"] if c["fam"] == "dedup" else "")
 
 
+def quotakey(c):
+    return "pre:" + c["fam"] if pre_of(c)["how"] != "none" else famkey(c)
+
+
 def plan_items(ctx, cases, quota, kinds=KINDS):
     rng = ctx.rng
     layouts = {c["c"]["n"]: c["e"] for c in cases if c["c"]["fam"] == "layouts"}
@@ -493,7 +560,7 @@ def plan_items(ctx, cases, quota, kinds=KINDS):
     byfam = {}
     for c in cases:
         if c["c"]["fam"] != "layouts":
-            byfam.setdefault(famkey(c["c"]), []).append(c)
+            byfam.setdefault(quotakey(c["c"]), []).append(c)
     items = []
     for fam in sorted(byfam):
         pool = byfam[fam]
@@ -589,7 +656,8 @@ def run(ctx):
     q = ctx.quick
     dev = float(__import__("os").environ.get("VERIF_C40_DEV", "1"))        # development only: shrink the dask side
     quota = {"shuffle": 900 if q else 9000, "sort": 900 if q else 9000, "setindex:auto": 450 if q else 4000, "setindex:user": 350 if q else 3000,
-             "setindex:sorted": 100 if q else 800, "dedup:drop_duplicates": 600 if q else 6000, "dedup:unique": 200 if q else 2000}
+             "setindex:sorted": 100 if q else 800, "dedup:drop_duplicates": 600 if q else 6000, "dedup:unique": 200 if q else 2000,
+             "pre:dedup": 450 if q else 3000, "pre:shuffle": 120 if q else 900, "pre:sort": 60 if q else 500}
     quota = {k: max(20, int(v * dev)) for k, v in quota.items()}
     items = plan_items(ctx, cases, quota)
     items += random_items(ctx.rng, 200 if q else 3000)
@@ -605,6 +673,14 @@ def run(ctx):
         ctx.count((it[1], it[2]), nontrivial(res["rec"]))
         strategies[res["strategy"]] = strategies.get(res["strategy"], 0) + 1
     ctx.extra["shuffles_exercised"] = strategies
+    rel = {}
+    for it, res in done:
+        if pre_of(it[1])["how"] != "none":
+            rel[pre_tag(it[1])] = rel.get(pre_tag(it[1]), 0) + 1
+    ctx.extra["pre_partitioned_sources_replayed"] = rel
+    missing = [r for r in ("equal", "subset", "superset", "overlap", "disjoint") if not any(t.endswith(":" + r) for t in rel)]
+    if missing:
+        raise MachineryError("vacuous: no pre-partitioned source whose columns are %s to the columns of the operation was replayed" % missing)
     report(ctx, bad)
     for fam in ("shuffle", "sort", "setindex"):
         ex = next(((it, res) for it, res in done if it[1]["fam"] == fam and nontrivial(res["rec"])), None)
@@ -614,7 +690,8 @@ def run(ctx):
     ctx.exhaustive = False
     ctx.rule = ("cases = TLC-enumerated (frame, operation, arguments) - a seeded sample per family - each crossed with one seeded "
                 "configuration (partitioning incl. empty parts, npartitions_out, shuffle_method, max_branch, ignore_index, split_out, "
-                "key dtype), plus seeded larger frames; non-trivial = at least two rows and the result has more than one partition "
+                "key dtype; sources fresh or PRE-PARTITIONED by an earlier shuffle / hash join / groupby(split_out) / set_index on columns "
+                "in every relation to the operation's columns), plus seeded larger frames; non-trivial = at least two rows and the result has more than one partition "
                 "(or is a unique / nunique result); distinct by (case, configuration)")
     ctx.assumptions = ["TLC evaluates the contracts correctly", "parts_collection builds exactly the given partitions",
                        "pandas per-partition kernels are correct", "the pyarrow shim is inert for pandas-backed frames"]
